@@ -383,7 +383,7 @@ func ruleRawKey(c *Ctx) {
 				}
 				if recvNamed(fn) == "LTable" {
 					// internal delegation: RawSet→RawSetH, Insert→RawSet… key comes from the accessor's own parameter
-					if pm, ok := k.(*ssa.Parameter); ok && pm.Name() == "key" {
+					if pm, ok := k.(*ssa.Parameter); ok && len(fn.Params) > 1 && pm == fn.Params[1] {
 						c.okT(R, key, p.ipos(cl), "internal delegation of the accessor's own key parameter")
 						continue
 					}
